@@ -120,6 +120,119 @@ pub fn c12() -> bool {
     bad
 }
 
+/// C03/C12, the per-entry loop of process_message on the real replica: a message carrying an
+/// acceptable entry, an entry superseded by a newer local one, an entry signed for another
+/// document and a second acceptable entry must store and announce exactly the two acceptable ones,
+/// in message order, with the content status delivered with each.
+pub fn c12pm() -> bool {
+    use crate::sync::Event;
+    let mut store = Store::memory();
+    let ns = NamespaceSecret::from_bytes(&[13u8; 32]);
+    let other_ns = NamespaceSecret::from_bytes(&[14u8; 32]);
+    let author = Author::from_bytes(&[15u8; 32]);
+    let nsid = ns.id();
+    store.import_namespace(ns.clone().into()).unwrap();
+    let mut replica = store.open_replica(&nsid).unwrap();
+    let now = std::time::SystemTime::now().duration_since(std::time::UNIX_EPOCH).unwrap().as_micros() as u64;
+    let mk = |n: &NamespaceSecret, key: &[u8], ts: u64| {
+        let id = RecordIdentifier::new(nsid, author.id(), key);
+        SignedEntry::from_entry(Entry::new(id, Record::new(Hash::new(key), 1 + key.len() as u64, ts)), n, &author)
+    };
+    // local state: a newer entry at "old"
+    block_on(replica.insert_remote_entry(mk(&ns, b"old", now - 10), [1u8; 32], ContentStatus::Complete)).unwrap();
+    let (tx, rx) = async_channel::bounded(16);
+    replica.info.subscribe(tx);
+    let ok1 = mk(&ns, b"k1", now - 100);
+    let superseded = mk(&ns, b"old", now - 1000);
+    let forged = mk(&other_ns, b"forged", now - 100); // namespace signature by the wrong key
+    let ok2 = mk(&ns, b"k2", now - 100);
+    // superseded by an entry earlier in the SAME part: same key (older), and below a newer prefix
+    let dup_new = mk(&ns, b"dup", now - 100);
+    let dup_old = mk(&ns, b"dup", now - 200);
+    let below = mk(&ns, b"dup/child", now - 300);
+    let range = Range::new(RecordIdentifier::default(), RecordIdentifier::default());
+    let msg = message(vec![MessagePart::RangeItem(RangeItem {
+        range,
+        values: vec![
+            (ok1.clone(), ContentStatus::Incomplete),
+            (superseded.clone(), ContentStatus::Complete),
+            (forged.clone(), ContentStatus::Complete),
+            (ok2.clone(), ContentStatus::Missing),
+            (dup_new.clone(), ContentStatus::Complete),
+            (dup_old.clone(), ContentStatus::Complete),
+            (below.clone(), ContentStatus::Complete),
+        ],
+        have_local: true,
+    })]);
+    let mut outcome = SyncOutcome::default();
+    let r = block_on(replica.sync_process_message(msg, [9u8; 32], &mut outcome));
+    let mut bad = false;
+    if r.is_err() {
+        eprintln!("c12pm: processing the message failed: {:?}", r.err());
+        bad = true;
+    }
+    let mut events = vec![];
+    while let Ok(ev) = rx.try_recv() {
+        if let Event::RemoteInsert { entry, remote_content_status, .. } = ev {
+            events.push((entry.key().to_vec(), entry.timestamp(), remote_content_status));
+        } else {
+            eprintln!("c12pm: unexpected event kind");
+            bad = true;
+        }
+    }
+    let want = vec![
+        (b"k1".to_vec(), now - 100, ContentStatus::Incomplete),
+        (b"k2".to_vec(), now - 100, ContentStatus::Missing),
+        (b"dup".to_vec(), now - 100, ContentStatus::Complete),
+    ];
+    if events != want {
+        eprintln!("c12pm: events {:?}, expected {:?}", events, want);
+        bad = true;
+    }
+    drop(replica);
+    let mut have = |k: &[u8]| store.get_exact(nsid, author.id(), k, true).unwrap().map(|e| e.timestamp());
+    let state = (have(b"k1"), have(b"k2"), have(b"old"), have(b"forged"));
+    if state != (Some(now - 100), Some(now - 100), Some(now - 10), None) {
+        eprintln!("c12pm: store after the message: k1 {:?}, k2 {:?}, old {:?}, forged {:?}", state.0, state.1, state.2, state.3);
+        bad = true;
+    }
+    bad
+}
+
+/// C01 silence: two replicas that hold the same entries (0, 1, 2 or 5 of them) exchange an initial
+/// message: the receiver must stay silent (no reply), and nothing may be inserted.
+pub fn c01silence() -> bool {
+    let ns = NamespaceSecret::from_bytes(&[16u8; 32]);
+    let author = Author::from_bytes(&[17u8; 32]);
+    let now = std::time::SystemTime::now().duration_since(std::time::UNIX_EPOCH).unwrap().as_micros() as u64;
+    let mut bad = false;
+    for n in [0usize, 1, 2, 5] {
+        let mut sa = Store::memory();
+        let mut sb = Store::memory();
+        let mut a = sa.new_replica(ns.clone()).unwrap();
+        let mut b = sb.new_replica(ns.clone()).unwrap();
+        for i in 0..n {
+            let key = [b'k', i as u8];
+            let id = RecordIdentifier::new(ns.id(), author.id(), key);
+            let e = SignedEntry::from_entry(Entry::new(id, Record::new(Hash::new(key), 2, now - 50 - i as u64)), &ns, &author);
+            block_on(a.insert_remote_entry(e.clone(), [1u8; 32], ContentStatus::Complete)).unwrap();
+            block_on(b.insert_remote_entry(e, [1u8; 32], ContentStatus::Complete)).unwrap();
+        }
+        let init = a.sync_initial_message().unwrap();
+        let mut outcome = SyncOutcome::default();
+        let reply = block_on(b.sync_process_message(init, [2u8; 32], &mut outcome)).unwrap();
+        if let Some(m) = &reply {
+            eprintln!("c01silence[{n} equal entries]: the receiver answered with {} part(s), {} value(s)", m.parts().len(), m.value_count());
+            bad = true;
+        }
+        if outcome.num_recv != 0 || outcome.num_sent != 0 {
+            eprintln!("c01silence[{n} equal entries]: counters recv {} sent {}", outcome.num_recv, outcome.num_sent);
+            bad = true;
+        }
+    }
+    bad
+}
+
 /// Fingerprints: two entries that differ in exactly one of namespace, author, key, timestamp or
 /// content hash must have different range fingerprints (real blake3).
 pub fn fp() -> bool {
@@ -147,6 +260,8 @@ pub fn run(id: &str) -> Option<bool> {
         "d3" => d3(),
         "d6" => d6(),
         "c12" => c12(),
+        "c12pm" => c12pm(),
+        "c01silence" => c01silence(),
         "fp" => fp(),
         "c14" => crate::actor::verif_incrate::witness_c14(),
         "c18" => crate::store::fs::verif_incrate::witness_c18::run(),
